@@ -1221,3 +1221,160 @@ def subject_cli(w, repo):
         rc, out, err = run([find_bin(repo), start, prim, glob], cwd=d)
         got = path in out.decode(errors="replace").split("\n")
         return (got != want), "find %s %s %r: %r %s (rc=%d); reference: %s" % (start, prim, glob, path, "selected" if got else "not selected", rc, "selected" if want else "not selected")
+
+
+# ------------------------------------------------------------------------------------------ C13 (stat records)
+def stat_cli(w, repo):
+    """scenario battery with an independent reference: a tree of files, directories and links whose link and target differ in owner,
+    group, size, link count and inode; every stat-based test under -P/-H/-L, at depth 0 and 1, against os.lstat / os.stat chosen by the
+    property's rule. A mount point (where readdir's d_ino differs from st_ino) is included when the sandbox has one."""
+    if not build(repo):
+        return None, "build failed"
+    res = []
+    with Sandbox() as d:
+        j = lambda *p: os.path.join(d, *p)
+        os.makedirs(j("t", "d")); os.makedirs(j("t", "ed")); os.makedirs(j("t", "sub"))
+        open(j("t", "d", "x"), "w").close()
+        open(j("t", "f"), "w").write("0123456789"); open(j("t", "e"), "w").close()
+        os.link(j("t", "f"), j("t", "h"))
+        for name, target in (("lf", "f"), ("le", "e"), ("ld", "d"), ("led", "ed"), ("dang", "nowhere")):
+            os.symlink(target, j("t", name)); os.symlink("../" + target, j("t", "sub", name))
+        try:
+            os.chown(j("t", "e"), 1, 1)
+            for name in ("lf", "le", "ld", "led", "dang"):
+                os.lchown(j("t", name), 7, 7); os.lchown(j("t", "sub", name), 7, 7)
+        except OSError:
+            pass
+        def record(path, follows):
+            if follows:
+                try:
+                    return os.stat(path)
+                except FileNotFoundError:
+                    return os.lstat(path)
+                except OSError:
+                    return None
+            return os.lstat(path)
+        import stat as st
+        def want(test, rec, path):
+            k, v = test
+            if rec is None:
+                return False
+            if k == "-uid": return rec.st_uid == v
+            if k == "-gid": return rec.st_gid == v
+            if k == "-user": return rec.st_uid == v[1]
+            if k == "-group": return rec.st_gid == v[1]
+            if k == "-links": return rec.st_nlink == v
+            if k == "-inum": return rec.st_ino == v
+            if k == "-size": return rec.st_size == v
+            if k == "-empty":
+                if st.S_ISREG(rec.st_mode): return rec.st_size == 0
+                if st.S_ISDIR(rec.st_mode): return not os.listdir(path)
+                return False
+            if k == "-samefile": return (rec.st_dev, rec.st_ino) == (v[1].st_dev, v[1].st_ino)
+        ino = lambda p: os.lstat(j("t", p)).st_ino
+        for mode in ("-P", "-H", "-L"):
+            tests = [("-uid", 7), ("-uid", 0), ("-uid", 1), ("-gid", 7), ("-gid", 1), ("-user", ("daemon", 1)), ("-user", ("root", 0)), ("-user", ("7", 7)), ("-group", ("7", 7)), ("-group", ("daemon", 1)),
+                     ("-links", 1), ("-links", 2), ("-inum", ino("f")), ("-inum", ino("lf")), ("-inum", ino("d")), ("-inum", ino("ld")), ("-size", 0), ("-size", 10), ("-empty", None)]
+            for fname in ("f", "lf", "e", "d", "dang"):
+                tests.append(("-samefile", (fname, record(j("t", fname), mode != "-P"))))
+            for test in tests:
+                k, v = test
+                opnd = [] if v is None else [("%dc" % v) if k == "-size" else (v[0] if isinstance(v, tuple) else str(v))]
+                # depth 0: every entry of t as a starting point; depth 1: below t/sub
+                starts = ["f", "h", "e", "d", "ed", "lf", "le", "ld", "led", "dang"]
+                for s in starts:
+                    rc, out, err = _find(repo, [mode, s, "-maxdepth", "0", k] + opnd, j("t"))
+                    got = s in out.split("\n")
+                    exp = bool(want(test, record(j("t", s), mode != "-P"), j("t", s)))
+                    if got != exp:
+                        res.append(("find %s %s %s %s: %s, the %s record says %s" % (mode, s, k, " ".join(opnd), "selected" if got else "not selected", "stat" if mode != "-P" else "lstat", exp), False))
+                    else:
+                        res.append(("", True))
+                rc, out, err = _find(repo, [mode, "sub", "-mindepth", "1", "-maxdepth", "1", k] + opnd, j("t"))
+                got = sorted(l for l in out.split("\n") if l)
+                exp = sorted("sub/" + n for n in os.listdir(j("t", "sub")) if want(test, record(j("t", "sub", n), mode == "-L"), j("t", "sub", n)))
+                res.append(("find %s sub -mindepth 1 -maxdepth 1 %s %s: %r, reference %r" % (mode, k, " ".join(opnd), got, exp), got == exp))
+        # mount points directly below /: readdir's d_ino is the covered directory's, lstat's st_ino the mounted root's
+        try:
+            top = [n for n in os.listdir("/") if os.path.ismount("/" + n) and not os.path.islink("/" + n)][:3]
+        except OSError:
+            top = []
+        for n in top:
+            i = os.lstat("/" + n).st_ino
+            rc, out, err = _find(repo, ["/", "-maxdepth", "1", "-inum", str(i)], d)
+            exp = sorted("/" + x for x in os.listdir("/") if os.lstat("/" + x).st_ino == i)
+            res.append(("find / -maxdepth 1 -inum %d (the mount point /%s): %r, reference %r" % (i, n, sorted(out.split()), exp), sorted(out.split()) == exp))
+    return _battery(res)
+
+
+# ------------------------------------------------------------------------------------------ C04 (input lines as -L sees them)
+def _ref_lines(data):
+    """reference for -L 1: the arguments of each invocation. A token ends its line iff the byte right after it is a newline (a blank before the
+    newline makes the line continue); empty lines do not count. -> (batches, error, ambiguous)"""
+    batches, line, cur, quote, slash, sawq, amb = [], [], bytearray(), 0, False, False, False
+    for c in data:
+        if quote:
+            if c == quote: quote = 0
+            else: cur.append(c)
+        elif slash:
+            cur.append(c); slash = False
+        elif c in (0x27, 0x22):
+            quote = c; sawq = True
+        elif c == 0x5C:
+            slash = True
+        elif c in (0x20, 0x0A, 0x09):
+            if cur:
+                line.append(bytes(cur)); cur = bytearray(); sawq = False
+                if c == 0x0A:
+                    batches.append(line); line = []
+            elif sawq:
+                amb = True
+        else:
+            cur.append(c)
+    if quote:
+        return batches, True, amb
+    if cur:
+        line.append(bytes(cur))
+    elif sawq:
+        amb = True
+    if line:
+        batches.append(line)
+    return batches, False, amb
+
+
+def reader_lines(w, repo):
+    """exact: the witness bytes (alone and followed by text that makes the kind of the last argument observable) piped into `xargs -L 1`, one write()
+    per read() of the witness; the arguments of each invocation against the reference's input lines"""
+    if not build(repo):
+        return None, "build failed"
+    data = bytes(w.get("input") or [])
+    if not data:
+        return None, "no input bytes"
+    tried = 0
+    with Sandbox() as d:
+        out_path = os.path.join(d, "argv.bin")
+        script = os.path.join(d, "dump.sh")
+        open(script, "w").write('#!/bin/sh\nfor a in "$@"; do printf "%s\\0" "$a" >> "' + out_path + '"; done\nprintf "\\1\\0" >> "' + out_path + '"\n')
+        os.chmod(script, 0o755)
+        for suffix in (b"", b" y\n", b"\ny\n", b" y z\n"):
+            full = data + suffix
+            want, err, amb = _ref_lines(full)
+            if err or amb:
+                continue
+            for pieces in chunkings(data, w.get("chunks")):
+                pieces = list(pieces) + ([suffix] if suffix else [])
+                if os.path.exists(out_path):
+                    os.remove(out_path)
+                rc, out, e = run_chunked([xargs_bin(repo), "-L", "1", script], pieces, cwd=d)
+                raw = open(out_path, "rb").read().split(b"\0")[:-1] if os.path.exists(out_path) else []
+                got, cur = [], []
+                for t in raw:
+                    if t == b"\1":
+                        got.append(cur); cur = []
+                    else:
+                        cur.append(t)
+                got = [b for b in got if b] if not want else got
+                tried += 1
+                if got != want or rc != 0:
+                    return True, "input %r delivered as read()s %r to xargs -L 1: invocations %r (rc=%d), the input lines are %r" % (full, pieces, got, rc, want)
+    return False, "input %r (alone and with three continuations): xargs -L 1 like the reference in %d runs" % (data, tried)
